@@ -116,6 +116,30 @@ def option_arms(F):
     return out
 
 
+def parse_roles(F):
+    """names of the mask variable and of the positive / negative request-type accumulators of
+    NetworkFilter::parse, found by role (what is stored as NetworkFilter.mask; what is OR-ed into it
+    unconditionally; what is AND-NOT-ed out of it), so that renaming them is not a finding"""
+    f = F.fn("filters::network::NetworkFilter::parse")
+    roles = {"mask": None, "pos": None, "neg": None}
+    for b, i, st in f.statements():
+        if st["k"] == "assign" and st["rv"]["k"] == "agg" and st["rv"].get("adt") == "filters::network::NetworkFilter":
+            d = dict(zip(st["rv"]["fields"], st["rv"]["ops"]))
+            if "mask" in d:
+                roles["mask"] = f.vexpr_operand(d["mask"]).lstrip("$")
+    for b, t in f.calls(r"bitor_assign$"):
+        if f.vexpr_operand(t["args"][0]) == "$" + str(roles["mask"]):
+            a = f.vexpr_operand(t["args"][1])
+            if re.match(r"^\$\w+$", a):
+                roles["pos"] = a.lstrip("$")
+    for b, t in f.calls(r"bitand_assign$"):
+        if f.vexpr_operand(t["args"][0]) == "$" + str(roles["mask"]):
+            m = re.match(r"^.*::not\(\$(\w+)\)$", f.vexpr_operand(t["args"][1]))
+            if m:
+                roles["neg"] = m.group(1)
+    return roles
+
+
 def variant_bits(F):
     """{variant: set(mask const)} set in the per-option closure of NetworkFilter::parse"""
     p = F.fn("filters::network::NetworkFilter::parse")
@@ -129,7 +153,7 @@ def variant_bits(F):
                 continue
             cond = dominating_conditions(c, b)
             for k, v in cond.items():
-                if k == "discr(arg:option)" and isinstance(v, int) and v < len(variants):
+                if re.match(r"^discr\(arg:\w+\)$", k) and isinstance(v, int) and v < len(variants):
                     tgt = c.expr_operand(t["args"][0])
                     out.setdefault(variants[v], set()).add((m.group(1), tgt.split(":")[-1], c.expr_operand(t["args"][2])))
     return out
@@ -160,12 +184,13 @@ def rule_chain(run, F, cfg):
            f"parse_filter_options recognises no option name outside the reference table (extra: {extra})", config=cfg,
            status=None if not extra else "UNDISCHARGED")
     run.floor("C03.1.option-chain", f"option names extracted [{cfg}]", len(arms), 30)
-    # content-type options: positive -> cpt_mask_positive, negated -> cpt_mask_negative
+    # content-type options: positive -> the positive accumulator, negated -> the negative one
+    roles = parse_roles(F)
     for variant, sets in sorted(bits.items()):
         tg = {(b, tgt, val) for b, tgt, val in sets if b.startswith("FROM_") and b != "FROM_DOCUMENT"}
         if not tg:
             continue
-        ok = {t[1] for t in tg} == {"cpt_mask_positive", "cpt_mask_negative"} or {t[1] for t in tg} <= {"cpt_mask_positive", "cpt_mask_negative", "mask"}
+        ok = {t[1] for t in tg} == {roles["pos"], roles["neg"]} or {t[1] for t in tg} <= {roles["pos"], roles["neg"], roles["mask"]}
         run.ob("C03.1.option-chain", f"accumulators:{variant}", ok and len({t[0] for t in tg}) == 1,
                f"NetworkFilterOption::{variant} sets exactly one type bit, in the positive or the negative "
                f"accumulator ({sorted(tg)})", config=cfg)
@@ -531,11 +556,24 @@ def rule_implicit_types(run, F, cfg):
     run.touched(f)
     rows = []
     sites = {}
+    # the variable that becomes NetworkFilter.mask (whatever it is called)
+    mask_var = None
+    for b, i, st in f.statements():
+        if st["k"] == "assign" and st["rv"]["k"] == "agg" and st["rv"].get("adt") == "filters::network::NetworkFilter":
+            d = dict(zip(st["rv"]["fields"], st["rv"]["ops"]))
+            if "mask" in d:
+                mask_var = f.vexpr_operand(d["mask"])
+    if not mask_var or not mask_var.startswith("$"):
+        run.ob("C03.8.implicit-types", "mask-variable", False, f"the variable stored as NetworkFilter.mask was not found ({mask_var})",
+               status="UNDISCHARGED", config=cfg)
+        return
+    # type accumulators: mask-typed user variables other than the mask itself
+    accs = {"$" + n for l, n in f.varnames.items() if str(f.locals[l].get("ty") if isinstance(f.locals[l], dict) else f.locals[l]).endswith("NetworkFilterMask")}
     for b, t in f.calls(r"bitor_assign$|bitand_assign$|bitxor_assign$|sub_assign$|::(remove|insert|toggle)$"):
-        if f.vexpr_operand(t["args"][0]) != "$mask":
+        if f.vexpr_operand(t["args"][0]) != mask_var:
             continue
         arg = _flatten_or(_short_mask_expr(f.vexpr_operand(t["args"][1])))
-        if not re.search(r"FROM_|cpt_mask", arg):
+        if not (re.search(r"FROM_", arg) or any(a in arg for a in accs - {mask_var})):
             continue
         op = {"bitor_assign": "|=", "bitand_assign": "&=", "insert": "|="}.get(t["callee"].rsplit("::", 1)[-1],
                                                                               t["callee"].rsplit("::", 1)[-1])
@@ -548,12 +586,24 @@ def rule_implicit_types(run, F, cfg):
         rows.append(row)
         sites[row] = (b, f.loc(b))
     run.floor("C03.8.implicit-types", f"type-mask updates after the option loop [{cfg}]", len(rows), 6)
+    # whole-table comparison modulo the names of the local variables (a rename is not a finding; using the
+    # wrong accumulator is): one consistent renaming must map the specification onto the extracted table
+    from collections import Counter
+    from analysis.names import renaming
+    ren = renaming(dict(Counter(rows)), dict(Counter(IMPLICIT_TYPES)))
+    inv = {g: w for w, g in (ren or {}).items()}
+
+    def spec_names(row):
+        from analysis.names import _subst
+        return _subst(row, inv) if ren else row
+
     want = list(IMPLICIT_TYPES)
     for row in rows:
-        ok = row in want
+        srow = spec_names(row)
+        ok = srow in want
         if ok:
-            want.remove(row)
-        run.ob("C03.8.implicit-types", f"{row[0]} {row[1]} if {sorted(row[2])}", ok,
+            want.remove(srow)
+        run.ob("C03.8.implicit-types", f"{srow[0]} {srow[1]} if {sorted(srow[2])}", ok,
                f"NetworkFilter::parse: `mask {row[0]} {row[1]}` under {sorted(row[2]) or 'no condition'} "
                + ("is a row of the implicit-type table" if ok else "is NOT a row of the implicit-type table (see "
                   "IMPLICIT_TYPES in rules/C03.py: wrong operand, wrong polarity or a missing / extra guard)"),
@@ -562,6 +612,9 @@ def rule_implicit_types(run, F, cfg):
         run.ob("C03.8.implicit-types", f"missing: {row[0]} {row[1]} if {sorted(row[2])}", False,
                f"NetworkFilter::parse no longer performs `mask {row[0]} {row[1]}` under {sorted(row[2]) or 'no condition'}",
                site=f.loc(0), config=cfg)
+    v_pos = (ren or {}).get("$cpt_mask_positive", "$cpt_mask_positive")
+    v_neg = (ren or {}).get("$cpt_mask_negative", "$cpt_mask_negative")
+    v_mask = (ren or {}).get("$mask", "$mask")
     # negated types are removed last: no type-adding update is reachable from the `&= !negative`
     last = [sites[r][0] for r in rows if r[0] == "&="]
     adders = [sites[r][0] for r in rows if r[0] == "|="]
@@ -579,7 +632,7 @@ def rule_implicit_types(run, F, cfg):
             if b in after and b not in set(sites[r][0] for r in rows):
                 tgt = f.vexpr_operand(t["args"][0])
                 arg = _short_mask_expr(f.vexpr_operand(t["args"][1]))
-                if tgt in ("$cpt_mask_positive", "$cpt_mask_negative") or (tgt == "$mask" and "IS_REMOVEPARAM" in arg):
+                if tgt in (v_pos, v_neg) or (tgt == v_mask and "IS_REMOVEPARAM" in arg):
                     late.append((tgt, arg, f.loc(b)))
     run.ob("C03.8.implicit-types", "conditions-read-final-option-state", not late,
            f"the positive / negative type masks and IS_REMOVEPARAM are not written after the implicit-type "
@@ -606,19 +659,14 @@ def rule_polarity(run, F, cfg):
         m = re.search(r"NetworkFilterOption::(\w+)\{(.*)\}$", res or "")
         if m and m.group(1) in boolean:
             payloads.setdefault(m.group(1), set()).add(m.group(2))
-    bad = {v: sorted(ps) for v, ps in payloads.items() if not all(re.match(r"^0: Not\((…)?var:negated\)$", x) for x in ps)}
+    bad = {v: sorted(ps) for v, ps in payloads.items() if not all(re.match(r"^0: Not\((…)?var:\w+\)$", x) for x in ps)}
     run.ob("C03.1.option-chain", "payload-is-not-negated", not bad and len(payloads) >= 13,
            f"every negatable option carries `!negated` as its payload ({len(payloads)} boolean options; offending: {bad})",
            site=f.loc(0), config=cfg)
     neg = [f.vexpr_rvalue(st["rv"]) if False else None for _ in ()]
-    negdefs = []
-    for l, nme in f.varnames.items():
-        if nme == "negation":
-            for d in f.defs().get(l, []):
-                negdefs.append(f.vexpr_call(d[2]) if d[0] == "call" else f.vexpr_rvalue(d[3]["rv"]))
-    run.ob("C03.1.option-chain", "negation-is-tilde-prefix",
-           len(negdefs) == 1 and bool(re.match(r"^core::str::starts_with\(.*'~'\)$", negdefs[0])),
-           f"`negation` is raw_option.starts_with('~') ({negdefs})", config=cfg)
+    negdefs = [f.vexpr_call(t) for b, t in f.calls(r"^core::str::starts_with$") if f.vexpr_operand(t["args"][1]) == "'~'"]
+    run.ob("C03.1.option-chain", "negation-is-tilde-prefix", len(negdefs) == 1,
+           f"the negation flag is <raw option>.starts_with('~') ({negdefs})", config=cfg)
     # (2) accumulators / flag values in NetworkFilter::parse
     p = F.fn("filters::network::NetworkFilter::parse")
     cl = [c for c in F.closures_of(p.name) if len(c.calls(r"::set$")) > 10]
@@ -630,10 +678,11 @@ def rule_polarity(run, F, cfg):
     rows = []
     for b, t in c.calls(r"::set$"):
         cond = dominating_conditions(c, b, render=c.vexpr_operand)
-        var = [variants[v] for k, v in cond.items() if k in ("discr($option)", "discr(arg:option)") and isinstance(v, int) and v < len(variants)]
-        en = cond.get("$enabled")
+        var = [variants[v] for k, v in cond.items() if re.match(r"^discr\((\$|arg:)\w+\)$", k) and isinstance(v, int) and v < len(variants)]
+        en = next((v for k, v in cond.items() if re.match(r"^\$\w+$", k)), None)   # the option's boolean payload
         rows.append((b, c.vexpr_operand(t["args"][0]).split(":")[-1], re.sub(r".*NetworkFilterMask::", "", c.vexpr_operand(t["args"][1])),
                      c.vexpr_operand(t["args"][2]), var[0] if var else None, en))
+    roles = parse_roles(F)
     bad_t = []
     n_t = 0
     by_var = {}
@@ -642,7 +691,7 @@ def rule_polarity(run, F, cfg):
             by_var.setdefault(var, set()).add((tgt, val, en))
     for var, got in sorted(by_var.items()):
         n_t += 1
-        if got != {("cpt_mask_positive", "true", 1), ("cpt_mask_negative", "true", 0)}:
+        if got != {(roles["pos"], "true", 1), (roles["neg"], "true", 0)}:
             bad_t.append((var, sorted(got, key=str)))
     run.ob("C03.1.option-chain", "type-bit-polarity", not bad_t and n_t >= 11,
            f"for each of the {n_t} negatable type options: enabled => positive accumulator, !enabled => negative "
@@ -658,9 +707,9 @@ def rule_polarity(run, F, cfg):
         combo = None
         var = None
         for e, v in pth.conds:
-            if e in ("discr(arg:option)",) and isinstance(v, int) and v < len(variants):
+            if re.match(r"^discr\(arg:\w+\)$", e) and isinstance(v, int) and v < len(variants):
                 var = variants[v]
-            m = re.match(r"^arg:option@(ThirdParty|FirstParty)\.0$", e)
+            m = re.match(r"^arg:\w+@(ThirdParty|FirstParty)\.0$", e)
             if m and v in (0, 1):
                 combo = (m.group(1), v)
         for bit, blk in clears.items():
